@@ -1435,6 +1435,13 @@ class Step(Node):
                     file.set_state(FileState.BUILT)
                     self.graph.mark_consuming_steps_pending(file)
             self.set_hash(new_hash)
+            # The hash just stored was computed with the current values of the tracked
+            # environment variables. Record them, so the next startup compares the environment
+            # with what this run saw instead of what it was when the variable was declared.
+            self.db.executemany(
+                "UPDATE env_var SET value = ? WHERE node = ? AND name = ?",
+                [(os.getenv(name), self.i, name) for name in list(self.env_deps())],
+            )
         return interrupted_defer
 
     def get_hash(self) -> StepHash | None:
